@@ -22,7 +22,11 @@ func (c *Client) Append(mailbox string, size int64, options *imap.AppendOptions)
 		}).SP()
 	}
 	if options != nil && !options.Time.IsZero() {
-		cmd.enc.String(options.Time.Format(internal.DateTimeLayout)).SP()
+		t := options.Time
+		if _, offset := t.Zone(); offset%60 != 0 {
+			t = t.UTC() // the date-time zone has no seconds
+		}
+		cmd.enc.String(t.Format(internal.DateTimeLayout)).SP()
 	}
 	// TODO: literal8 for BINARY
 	// TODO: UTF8 data ext for UTF8=ACCEPT, with literal8
